@@ -101,6 +101,32 @@ func scenKeys(c *hx.Ctx, in Input) {
 	c.Nontrivial(fmt.Sprintf("keys:%d/%d/%d", h, i, s))
 	c.Case(fmt.Sprintf("CKeys %d %d %d %s %s", h, i, s, hx.CoqBytes(k1), hx.CoqBytes(k2)),
 		map[string]interface{}{"kind": "keys", "h": h, "i": i, "s": s})
+
+	// sequential aliasing clause: a key obtained from the builder stays what it was, and distinct
+	// from later keys, after further builds (the key is a pure function of (bit, section)).
+	i2, s2 := uint(r.Intn(2048)), pick32()
+	if uint16(i2) == uint16(i) && s2 == s {
+		i2 = (i2 + 1) % 2048
+	}
+	ka := ledgerstore.VerifC43BloomBitsKey(i, s)
+	snapA := append([]byte{}, ka...)
+	kb := ledgerstore.VerifC43BloomBitsKey(i2, s2)
+	snapB := append([]byte{}, kb...)
+	afterA, afterB := append([]byte{}, ka...), append([]byte{}, kb...) // both read after the second build
+	c.Eval()
+	c.Case(fmt.Sprintf("CKeyPair %d %d %d %d %s %s", i, s, i2, s2, hx.CoqBytes(afterA), hx.CoqBytes(afterB)),
+		map[string]interface{}{"kind": "keypair", "i1": i, "s1": s, "i2": i2, "s2": s2})
+	for j := 0; j < 3; j++ {
+		ledgerstore.VerifC43BloomBitsKey(uint(r.Intn(2048)), r.Uint32())
+	}
+	shared := len(ka) > 0 && len(kb) > 0 && &ka[0] == &kb[0]
+	if shared || !bytes.Equal(afterA, snapA) || !bytes.Equal(ka, snapA) || !bytes.Equal(kb, snapB) || bytes.Equal(afterA, afterB) {
+		c.Fail("index:key-aliased", "two keys obtained from bloomBitsKey do not stay distinct and unchanged after further key builds", in,
+			fmt.Sprintf("(bit %d, section %d) built %x, now %x; (bit %d, section %d) built %x, now %x; same backing array: %v",
+				i, s, snapA, ka, i2, s2, snapB, kb, shared),
+			"both unchanged, distinct, separately allocated")
+	}
+	c.Count("keys:pairs")
 }
 
 func randVector(r *rand.Rand) []byte {
